@@ -3,6 +3,8 @@ from harness.zoo import N_CLS_SHAPES, N_FUN_SHAPES
 from vlib.plan import CH, K
 
 FUNCTIONS = [
+    "safeds_stubgen.api_analyzer._ast_visitor:MyPyAstVisitor.enter_funcdef",
+    "safeds_stubgen.api_analyzer._ast_visitor:MyPyAstVisitor._parse_results",
     "safeds_stubgen.stubs_generator._stub_string_generator:StubsStringGenerator._create_docstring_description_part",
     "safeds_stubgen.stubs_generator._stub_string_generator:StubsStringGenerator._create_sds_docstring",
     "safeds_stubgen.stubs_generator._stub_string_generator:StubsStringGenerator._create_sds_docstring_description",
@@ -59,4 +61,7 @@ def plan(tier):
            desc="inductive step over the one-entry docstring cache", stubs=["_get_griffe_node -> finite table"],
            symbolic="arbitrary cache pre-state, asked name, getter"),
         CH("plaintext_pick", "harness.c13", "plaintext_pick", [""], timeout=t, desc="plaintext docstring selection", stubs=["mypy -> shim"]),
+        CH("result_names", "harness.c13", "result_comment_names", [f"0:{r}" for r in range(4)], timeout=t,
+           desc="analyser + generator: the i-th '@result <name>' of the comment names the i-th declared result",
+           stubs=["mypy -> shim", "docstring parser -> stub returning the selected result documentation"], symbolic="shape selectors"),
     ]
